@@ -146,6 +146,7 @@ type Step struct {
 	Pools       []PoolStat        // counters after the command
 	OldPools    []PoolStat        // counters of pools of previous namespace generations (reload), after the command
 	Gen         int               // namespace generation (number of reloads so far) when the command ran
+	NewConns    []ConnKey         // backend connections accepted while the command ran (synchronous with the proxy's dial)
 }
 
 // Trace is the result of running a case.
@@ -859,7 +860,7 @@ func runLive(c Case, opt Options, live *Live) *Trace {
 			if time.Since(lastChange) > settle {
 				// stuck. A backend connection that still looks open inside a transaction may only be waiting for its
 				// (loaded) server goroutine to notice that the proxy closed the socket: give those a little longer.
-				if !dirty(curOpen) || time.Since(start) > 3*time.Second {
+				if !dirty(curOpen) || time.Since(start) > 2*time.Second {
 					break
 				}
 			}
